@@ -83,6 +83,30 @@ mod time {
             }
         }
 
+        /// `elapsed()` on a value `delta` ns away from the live clock (positive = in the future).  Returns what the
+        /// entry point returned together with the reading taken right before the call.
+        pub fn elapsed_probe(kind: &str, delta: i64) -> String {
+            let shift = |t: TimeSpec| -> TimeSpec {
+                let total = t.seconds() as i128 * 1_000_000_000 + t.nanoseconds() as i128 + delta as i128;
+                TimeSpec::new((total.div_euclid(1_000_000_000)) as i64, (total.rem_euclid(1_000_000_000)) as i64)
+            };
+            match kind {
+                "instant" => {
+                    let base = shift(get_monotonic_time());
+                    du(Instant(base).elapsed())
+                }
+                "system" => {
+                    let base = shift(get_real_time());
+                    du(SystemTime(base).elapsed())
+                }
+                "mono" => {
+                    let base = shift(get_monotonic_time());
+                    du(Some(MonotonicInstant(base).elapsed()))
+                }
+                _ => "bad-op".to_string(),
+            }
+        }
+
         /// observations (not compared with the model): monotonic clock never decreases
         pub fn monotonic_probe(n: usize) -> (usize, i128) {
             let mut prev = MonotonicInstant::now();
@@ -175,6 +199,13 @@ fn main() {
                 format!("monotonic {} {}", bad, worst)
             }
             ["sleep", req, rest @ ..] => sleep_scripted(req.parse().unwrap(), rest),
+            ["elapsed", kind, delta] => {
+                let (kind, delta) = (kind.to_string(), delta.parse::<i64>().unwrap());
+                match std::panic::catch_unwind(move || time::verif::elapsed_probe(&kind, delta)) {
+                    Ok(s) => s,
+                    Err(_) => "panic".to_string(),
+                }
+            }
             ["realsleep", ns] => {
                 let ns: u64 = ns.parse().unwrap();
                 let t0 = std::time::Instant::now();
